@@ -16,11 +16,12 @@ import datetime
 
 from lib import common, recog, dtpipe, dtcorpus, periodcorr
 from lib import durationcorr
+from lib import dtperiodcorr
 from lib.common import cps, uncps
 
 PROP = 'C10'
 LEVEL = 'proof'
-PROPS_MODULES = ['RTV.Props.C10', 'RTV.Props.C10Periods', 'RTV.Props.C10Durations']
+PROPS_MODULES = ['RTV.Props.C10', 'RTV.Props.C10Periods', 'RTV.Props.C10Durations', 'RTV.Props.C10DtPeriod']
 GEN = ['chartables', 'durationmaps']
 REQUIRED_THEOREMS = ['duration_timex_reads_back', 'duration_value_matches_timex', 'luis_time_span_inverse',
                      'between_dates_consistent', 'between_times_consistent', 'unit_tables_consistent',
@@ -29,7 +30,12 @@ REQUIRED_THEOREMS = ['duration_timex_reads_back', 'duration_value_matches_timex'
                      'month_with_year_wellformed', 'quarter_definite_ok', 'week_of_month_ranges', 'which_week_spec',
                      # Props/C10Durations: every path of BaseDurationParser over a software binary64, BaseSetParser
                      'assemble_shape', 'space_integer_exact', 'combined_integer_exact', 'space_half_exact', 'combined_guard',
-                     'decimal_binary64_exact', 'merged_duration_unparsed', 'unit_first_character_witness', 'set_values']
+                     'decimal_binary64_exact', 'merged_duration_unparsed', 'unit_first_character_witness', 'set_values',
+                     # Props/C10DtPeriod: the computations of BaseDateTimePeriodParser
+                     'relative_unit_ok', 'rest_of_day_ok', 'parse_duration_past', 'parse_duration_future',
+                     'parse_duration_no_prefix_rejected', 'part_of_day_inside_one_day', 'specific_time_of_day_ok',
+                     'simple_cases_ok', 'simple_cases_reversed_rejected', 'merge_both_ok', 'merge_begin_date_ok',
+                     'merge_begin_date_reversed_witness', 'date_period_ok', 'date_period_cross_midnight_rejected']
 RULE = ('N in {1,2,3,7,30,365,1000,5000} (quick: 3 of them per spelling) × every spelling of every culture\'s duration '
         'unit_map; ordered pairs of absolute dates and of clock times in English; every range entity over the '
         'Python-supported DateTime Specs inputs of all cultures; non-trivial = distinct query that produced an entity of '
@@ -112,6 +118,7 @@ def correspond(ctx):
     # the range computations of BaseDatePeriodParser (RTV.Model.Periods, theorems in Props/C10Periods) against the real methods
     periodcorr.unit(ctx, n_refs=120)
     durationcorr.unit(ctx)   # BaseDurationParser (all paths) / BaseSetParser against RTV.Model.Durations, 8 cultures
+    dtperiodcorr.run(ctx)    # BaseDateTimePeriodParser against RTV.Model.DtPeriod (unit) + triple oracle on its expression families
 
     # ------------------------------------------------------------- pipeline (a): N × spelling
     jobs, meta = [], []
